@@ -100,8 +100,16 @@ def run_driver(cmd, cases, wdir, kind="rel", timeout_s=20, jobs=None, tag="drv",
         e.setdefault("UBSAN_OPTIONS", "halt_on_error=1:abort_on_error=1:print_stacktrace=1")
         if env:
             e.update(env)
-        p = subprocess.Popen([vdriver(kind), cmd, fin, fout, "--timeout", str(timeout_s)],
-                             stdout=subprocess.DEVNULL, stderr=open(fout + ".stderr", "w"), env=e)
+        for attempt in range(20):
+            try:
+                p = subprocess.Popen([vdriver(kind), cmd, fin, fout, "--timeout", str(timeout_s)],
+                                     stdout=subprocess.DEVNULL, stderr=open(fout + ".stderr", "w"), env=e)
+                break
+            except (PermissionError, OSError):
+                # the driver binary is being re-linked by a concurrent build
+                time.sleep(1.5)
+        else:
+            raise MachineryError("driver binary not executable")
         procs.append((p, fout, len(ch)))
     by_case = {}
     order = []
